@@ -10,11 +10,14 @@ The system-level statements (mailboxes, release on restart / termination, two no
 namespace MV.Props.C10
 open MV.Model.PubSub MV.Spec.PubSub MV.Lemmas.PubSub
 
+-- the physical address of the node the subscription actor lives on: every statement holds for any
+variable (self : Nat)
+
 /-- the state of the machine after any history refines the set of current subscriptions -/
 theorem C10_refines (h : List Envelope) :
-    (Abs.after h).count = (SubActor.run SubActor.init h).1.guid ∧
-    ∀ t, (SubActor.run SubActor.init h).1.lookup t = (Abs.after h).on t :=
-  refines_run h
+    (Abs.after h).count = (SubActor.run (SubActor.init self) h).1.guid ∧
+    ∀ t, (SubActor.run (SubActor.init self) h).1.lookup t = (Abs.after h).on t :=
+  refines_run self h
 
 theorem deliveries_fanout (l : List Subscription) (s : Option Ref) (p : Nat) :
     deliveries (fanout l s p) = fanout l s p := by
@@ -35,11 +38,11 @@ theorem deliveries_remote (sas : List Nat) (t : Topic) (p : Payload) (s : Option
     to its subscriber, with the publisher as sender, and nothing for anybody else; the state of the
     subscription actor does not change. -/
 theorem C10_fanout_exact (h : List Envelope) (snd : Option Ref) (t : Topic) (p : Payload) :
-    let s := (SubActor.run SubActor.init h).1
+    let s := (SubActor.run (SubActor.init self) h).1
     let r := s.step { sender := snd, msg := .localPublishRequest t p }
     deliveries r.2 = (Abs.after h).expected t snd p.id ∧ r.1 = s := by
   intro s r
-  have hr := (refines_run h).2 t
+  have hr := (refines_run self h).2 t
   refine ⟨?_, rfl⟩
   show deliveries (onLocalPublishRequest s snd t p).2 = _
   unfold onLocalPublishRequest
@@ -55,11 +58,11 @@ theorem C10_fanout_exact (h : List Envelope) (snd : Option Ref) (t : Topic) (p :
 /-- the same for a publication that arrives from another node: one delivery per current
     subscription, with the *original publisher* as sender; nothing if the payload cannot be decoded -/
 theorem C10_remote_fanout_exact (h : List Envelope) (snd pub : Option Ref) (t : Topic) (p : Payload) (d : Bool) :
-    let s := (SubActor.run SubActor.init h).1
+    let s := (SubActor.run (SubActor.init self) h).1
     let r := s.step { sender := snd, msg := .publishRequestBroadcast t p pub d }
     r.2 = (if d then (Abs.after h).expected t pub p.id else []) ∧ r.1 = s := by
   intro s r
-  have hr := (refines_run h).2 t
+  have hr := (refines_run self h).2 t
   show (onPublishRequestBroadcast s t p pub d).2 = _ ∧ (onPublishRequestBroadcast s t p pub d).1 = s
   unfold onPublishRequestBroadcast
   cases d
@@ -207,10 +210,10 @@ theorem C10_cancel (h1 h2 : List Envelope) (snd : Option Ref) (t : Topic) (i : N
     contains that id -/
 theorem C10_cancel_machine (h1 h2 : List Envelope) (snd : Option Ref) (t : Topic) (i : Nat)
     (hissued : i ≤ (h1.filter isSubscribe).length) :
-    ∀ sub ∈ (SubActor.run SubActor.init (h1 ++ { sender := snd, msg := .unsubscribeRequest t i } :: h2)).1.lookup t,
+    ∀ sub ∈ (SubActor.run (SubActor.init self) (h1 ++ { sender := snd, msg := .unsubscribeRequest t i } :: h2)).1.lookup t,
       sub.id ≠ i := by
   intro sub hin hi
-  rw [(refines_run _).2 t] at hin
+  rw [(refines_run self _).2 t] at hin
   simp only [Abs.on, List.mem_filter, beq_iff_eq] at hin
   exact C10_cancel h1 h2 snd t i hissued sub hin.1 ⟨hin.2, hi⟩
 
@@ -218,10 +221,10 @@ theorem C10_cancel_machine (h1 h2 : List Envelope) (snd : Option Ref) (t : Topic
     broadcast to the linked nodes, which fan out to *their* subscribers). -/
 theorem C10_empty_topic_harmless (h : List Envelope) (snd : Option Ref) (t : Topic) (p : Payload)
     (hnone : (Abs.after h).on t = []) :
-    let s := (SubActor.run SubActor.init h).1
+    let s := (SubActor.run (SubActor.init self) h).1
     let r := s.step { sender := snd, msg := .localPublishRequest t p }
     deliveries r.2 = [] ∧ r.1 = s := by
-  have := C10_fanout_exact h snd t p
+  have := C10_fanout_exact self h snd t p
   simp only [Abs.expected, hnone, List.map_nil] at this
   exact this
 
@@ -250,16 +253,16 @@ theorem C10_iteration_order_irrelevant (l l' : List Subscription) (hp : l.Perm l
 /-- a subscriber gets exactly as many copies of a publication as it has current subscriptions of
     the topic, each with the publisher as sender — in particular exactly one for one subscription -/
 theorem C10_copies (h : List Envelope) (snd : Option Ref) (t : Topic) (p : Payload) (r : Ref) :
-    deliveriesTo r ((SubActor.run SubActor.init h).1.step { sender := snd, msg := .localPublishRequest t p }).2 =
+    deliveriesTo r ((SubActor.run (SubActor.init self) h).1.step { sender := snd, msg := .localPublishRequest t p }).2 =
       List.replicate (((Abs.after h).on t).countP (fun x => x.subscriber = r)) { sender := snd, payload := p.id } := by
-  have hr := (refines_run h).2 t
+  have hr := (refines_run self h).2 t
   show deliveriesTo r (onLocalPublishRequest _ snd t p).2 = _
   simp only [onLocalPublishRequest]
   have happ : ∀ (a b : List Eff), deliveriesTo r (a ++ b) = deliveriesTo r a ++ deliveriesTo r b := by
     intro a b; simp [deliveriesTo, List.filterMap_append]
   rw [happ, deliveriesTo_fanout, hr]
-  have : deliveriesTo r (if 0 < (SubActor.run SubActor.init h).1.sas.length ∧ p.enc = true then
-      (SubActor.run SubActor.init h).1.sas.map (fun a => Eff.tellRemote a t p snd) else []) = [] := by
+  have : deliveriesTo r (if 0 < (SubActor.run (SubActor.init self) h).1.sas.length ∧ p.enc = true then
+      (SubActor.run (SubActor.init self) h).1.sas.map (fun a => Eff.tellRemote a t p snd) else []) = [] := by
     split
     · simp [deliveriesTo, List.filterMap_map, Function.comp_def]
     · rfl
@@ -267,13 +270,13 @@ theorem C10_copies (h : List Envelope) (snd : Option Ref) (t : Topic) (p : Paylo
 
 /-! ## broadcast to the linked nodes -/
 
-theorem sas_nodup (h : List Envelope) : (SubActor.run SubActor.init h).1.sas.Nodup := by
+theorem sas_nodup (h : List Envelope) : (SubActor.run (SubActor.init self) h).1.sas.Nodup := by
   induction h using snoc_induction with
   | nil => simp [SubActor.run, SubActor.init]
   | snoc h e ih =>
     rw [run_append]
     simp only [SubActor.run]
-    generalize (SubActor.run SubActor.init h).1 = s at ih ⊢
+    generalize (SubActor.run (SubActor.init self) h).1 = s at ih ⊢
     cases hm : e.msg with
     | subscribeRequest t r => simpa [SubActor.step, hm, onSubscribeRequest] using ih
     | unsubscribeRequest t i =>
@@ -286,24 +289,120 @@ theorem sas_nodup (h : List Envelope) : (SubActor.run SubActor.init h).1.sas.Nod
     | statusChanged a c =>
       simp only [SubActor.step, hm, onStatusChanged]
       split
-      · exact ih.filter _
-      · simp only
-        split
-        · exact ih
-        · rename_i hn
-          exact List.nodup_append.mpr ⟨ih, by simp, by
+      · exact ih
+      · split
+        · exact ih.filter _
+        · simp only
+          split
+          · exact ih
+          · rename_i hn
+            exact List.nodup_append.mpr ⟨ih, by simp, by
             intro x hx y hy; simp at hy; subst hy; intro hxy; subst hxy; exact hn hx⟩
     | other => simpa [SubActor.step, hm] using ih
+
+theorem self_const (h : List Envelope) : (SubActor.run (SubActor.init self) h).1.self = self := by
+  induction h using snoc_induction with
+  | nil => rfl
+  | snoc h e ih =>
+    rw [run_append]
+    simp only [SubActor.run]
+    generalize (SubActor.run (SubActor.init self) h).1 = s at ih ⊢
+    cases hm : e.msg with
+    | subscribeRequest t r => simpa [SubActor.step, hm, onSubscribeRequest] using ih
+    | unsubscribeRequest t i =>
+      simp only [SubActor.step, hm, onUnsubscribeRequest]
+      split <;> exact ih
+    | publishRequestBroadcast t p pub d =>
+      simp only [SubActor.step, hm, onPublishRequestBroadcast]
+      split <;> exact ih
+    | localPublishRequest t p => simpa [SubActor.step, hm, onLocalPublishRequest] using ih
+    | statusChanged a c =>
+      simp only [SubActor.step, hm, onStatusChanged]
+      split
+      · exact ih
+      · split <;> exact ih
+    | other => simpa [SubActor.step, hm] using ih
+
+/-- **The subscription actor never lists its own node** (cluster contact providers announce the local
+    node too; before the `fix:` commit it was listed and every encodable publication reached the
+    local subscribers twice: once by the local fan-out, once by the broadcast to itself). -/
+theorem C10_no_self_in_sas (h : List Envelope) : self ∉ (SubActor.run (SubActor.init self) h).1.sas := by
+  induction h using snoc_induction with
+  | nil => simp [SubActor.run, SubActor.init]
+  | snoc h e ih =>
+    have hself := self_const self h
+    rw [run_append]
+    simp only [SubActor.run]
+    generalize (SubActor.run (SubActor.init self) h).1 = s at ih hself ⊢
+    cases hm : e.msg with
+    | subscribeRequest t r => simpa [SubActor.step, hm, onSubscribeRequest] using ih
+    | unsubscribeRequest t i =>
+      simp only [SubActor.step, hm, onUnsubscribeRequest]
+      split <;> exact ih
+    | publishRequestBroadcast t p pub d =>
+      simp only [SubActor.step, hm, onPublishRequestBroadcast]
+      split <;> exact ih
+    | localPublishRequest t p => simpa [SubActor.step, hm, onLocalPublishRequest] using ih
+    | statusChanged a c =>
+      simp only [SubActor.step, hm, onStatusChanged]
+      split
+      · exact ih
+      · rename_i hne
+        split
+        · intro hmem; exact ih (List.mem_filter.mp hmem).1
+        · simp only
+          split
+          · exact ih
+          · intro hmem
+            simp only [List.mem_append, List.mem_singleton] at hmem
+            rcases hmem with hmem | hmem
+            · exact ih hmem
+            · exact hne (by rw [hself]; exact hmem.symm)
+    | other => simpa [SubActor.step, hm] using ih
+
+/-- hence no turn ever tells a broadcast to the own node: the local subscribers are reached by the
+    local fan-out only -/
+theorem C10_no_self_broadcast (h : List Envelope) (e : Envelope) (t : Topic) (p : Payload) (pub : Option Ref) :
+    Eff.tellRemote self t p pub ∉ ((SubActor.run (SubActor.init self) h).1.step e).2 := by
+  have hno := C10_no_self_in_sas self h
+  generalize (SubActor.run (SubActor.init self) h).1 = s at hno ⊢
+  intro hmem
+  cases hm : e.msg with
+  | subscribeRequest t' r => simp [SubActor.step, hm, onSubscribeRequest] at hmem
+  | unsubscribeRequest t' i =>
+    simp only [SubActor.step, hm, onUnsubscribeRequest] at hmem
+    split at hmem <;> simp at hmem
+  | publishRequestBroadcast t' p' pub' d =>
+    simp only [SubActor.step, hm, onPublishRequestBroadcast] at hmem
+    split at hmem
+    · simp [fanout] at hmem
+    · simp at hmem
+  | localPublishRequest t' p' =>
+    simp only [SubActor.step, hm, onLocalPublishRequest, List.mem_append] at hmem
+    rcases hmem with hmem | hmem
+    · split at hmem
+      · simp only [List.mem_map] at hmem
+        obtain ⟨a, ha, hEq⟩ := hmem
+        injection hEq with h1
+        exact hno (h1 ▸ ha)
+      · simp at hmem
+    · simp [fanout] at hmem
+  | statusChanged a c =>
+    simp only [SubActor.step, hm, onStatusChanged] at hmem
+    split at hmem
+    · simp at hmem
+    · split at hmem <;> simp at hmem
+  | other => simp [SubActor.step, hm] at hmem
 
 /-- **One broadcast per linked node.** A local publication of an encodable payload is told exactly
     once to the subscription actor of every linked node (and to nobody else), carrying topic, payload
     and the publisher; a payload the codec rejects stays local. -/
 theorem C10_remote_broadcast_once (h : List Envelope) (snd : Option Ref) (t : Topic) (p : Payload) (a : Nat) :
-    let s := (SubActor.run SubActor.init h).1
+    let s := (SubActor.run (SubActor.init self) h).1
     ((s.step { sender := snd, msg := .localPublishRequest t p }).2.count (Eff.tellRemote a t p snd)) =
       if a ∈ s.sas ∧ p.enc = true then 1 else 0 := by
   intro s
-  have hnd : s.sas.Nodup := sas_nodup h
+  have hnd : s.sas.Nodup := sas_nodup self h
   show (onLocalPublishRequest s snd t p).2.count _ = _
   simp only [onLocalPublishRequest, List.count_append]
   have hf : (fanout (s.lookup t) snd p.id).count (Eff.tellRemote a t p snd) = 0 := by
@@ -343,7 +442,7 @@ def pubReq (n : Nat) (t : Topic) (p : Nat) : Envelope := { sender := some (ref n
 /-- two subscribers of topic 1 (one of them twice), one of topic 2, one cancelled: the publication on
     topic 1 goes to subscriber 1 twice and subscriber 2 once with the publisher as sender -/
 example :
-    ((SubActor.run SubActor.init [subReq 1 1, subReq 1 2, subReq 2 3, subReq 1 1, subReq 1 4, unsubReq 1 5]).1.step
+    ((SubActor.run (SubActor.init 0) [subReq 1 1, subReq 1 2, subReq 2 3, subReq 1 1, subReq 1 4, unsubReq 1 5]).1.step
       (pubReq 9 1 7)).2 =
     [.deliver (ref 1) (some (ref 9)) 7, .deliver (ref 2) (some (ref 9)) 7, .deliver (ref 1) (some (ref 9)) 7] := by
   decide
